@@ -679,7 +679,11 @@ func (p *Printer) wordPart(wp, next WordPart) {
 		p.dblQuoted(wp)
 	case *CmdSubst:
 		p.advanceLine(wp.Pos().Line())
+		// Statements inside a word must not affect the separator logic
+		// of the statement that the word belongs to.
+		wroteSemi := p.wroteSemi
 		p.cmdSubst(wp)
+		p.wroteSemi = wroteSemi
 	case *ParamExp:
 		litCont := ";"
 		if nextLit, ok := next.(*Lit); ok && nextLit.Value != "" {
@@ -715,8 +719,10 @@ func (p *Printer) wordPart(wp, next WordPart) {
 			p.space()
 		}
 		p.w.WriteString(wp.Op.String())
+		wroteSemi := p.wroteSemi
 		p.nestedStmts(wp.Stmts, wp.Last, wp.Rparen)
 		p.rightParen(wp.Rparen)
+		p.wroteSemi = wroteSemi
 	}
 }
 
@@ -1148,6 +1154,10 @@ func (p *Printer) stmt(s *Stmt) {
 		}
 		p.wroteSemi = true
 		p.wantSpace = spaceRequired
+	} else {
+		// A terminator written for a nested statement (`{ a & }`, `;;`)
+		// says nothing about this statement.
+		p.wroteSemi = false
 	}
 	p.decLevel()
 }
